@@ -413,9 +413,29 @@ import re as _re
 _PAT_CACHE = {}
 
 
+def canonical_pattern(pattern):
+    """A pattern written in source syntax is brought to the same canonical
+    expression form as the analysed trees (sa/normalize.py, step P2) when it
+    parses as an expression or statement; fragments are left as they are."""
+    from .normalize import ExprNorm
+    txt = _re.sub(r'\$(\w+)', r'__mv_\1__', pattern)
+    for mode in ('eval', 'exec'):
+        try:
+            tree = ast.parse(txt, mode=mode)
+        except SyntaxError:
+            continue
+        tree = ExprNorm().visit(tree)
+        ast.fix_missing_locations(tree)
+        out = ' '.join(ast.unparse(tree).split())
+        return _re.sub(r'__mv_(\w+?)__', r'$\1', out)
+    return pattern
+
+
 def pattern_regex(pattern):
     if pattern in _PAT_CACHE:
         return _PAT_CACHE[pattern]
+    raw = pattern
+    pattern = canonical_pattern(pattern)
     out = []
     seen = set()
     pos = 0
@@ -430,7 +450,7 @@ def pattern_regex(pattern):
         pos = m.end()
     out.append(_re.escape(pattern[pos:]))
     rx = _re.compile(''.join(out))
-    _PAT_CACHE[pattern] = rx
+    _PAT_CACHE[raw] = rx
     return rx
 
 
@@ -487,3 +507,45 @@ def alpha_text(text_or_node, fnode):
     rx = _re.compile(r'(?<![\w.])(%s)\b(?!\s*=(?!=))' % '|'.join(
         sorted((_re.escape(n) for n in names), key=len, reverse=True)))
     return rx.sub('$', text)
+
+
+# --------------------------------------------------------------------------
+# single-assignment locals: a rule about "what is passed" must not depend on
+# whether the value went through a temporary
+def resolve_local(fnode, expr, depth=4):
+    """If expr is a local name that is bound exactly once in fnode by a plain
+    assignment, the assigned expression (followed through further such names);
+    otherwise expr itself."""
+    while depth > 0 and isinstance(expr, ast.Name):
+        binds = []
+        for n in ast.walk(fnode):
+            if isinstance(n, ast.Name) and n.id == expr.id and \
+                    isinstance(n.ctx, (ast.Store, ast.Del)):
+                binds.append(n)
+        if len(binds) != 1:
+            return expr
+        val = None
+        for n in ast.walk(fnode):
+            if isinstance(n, ast.Assign) and len(n.targets) == 1 and n.targets[0] is binds[0]:
+                val = n.value
+        a = fnode.args if hasattr(fnode, 'args') else None
+        if val is None:
+            return expr
+        expr = val
+        depth -= 1
+    return expr
+
+
+def fstring_parts(node, fnode=None):
+    """JoinedStr -> list of str literals and (expr_text, conversion) tuples, with
+    single-assignment locals resolved when fnode is given."""
+    if not isinstance(node, ast.JoinedStr):
+        return None
+    out = []
+    for v in node.values:
+        if isinstance(v, ast.Constant):
+            out.append(v.value)
+        elif isinstance(v, ast.FormattedValue):
+            e = resolve_local(fnode, v.value) if fnode is not None else v.value
+            out.append((norm_text(e), chr(v.conversion) if v.conversion != -1 else ''))
+    return out
